@@ -6,14 +6,21 @@ from __future__ import annotations
 from ..e1 import Template
 from ..kernel import BOOL, INT, REAL, STR
 
+import datetime as _dtm
+
+from ..kernel import DATE, DT
+
 S = [("t", {"a": INT, "b": INT, "p": BOOL, "s": STR, "f": REAL})]
+S_TM = S + [("u", {"a": INT, "d": DATE, "t": DT})]
+D0 = _dtm.date(2010, 1, 1)
+T0 = _dtm.datetime(2010, 1, 1, 2, 3, 4)
 
 
 def templates(cfg):
     out = []
 
-    def T(name, prog):
-        out.append(Template(f"c19x.{name}", S, prog, props=("C19",)))
+    def T(name, prog, sources=S):
+        out.append(Template(f"c19x.{name}", sources, prog, props=("C19",)))
 
     T("offset_no_order", lambda p, t: t >> p.slice_head(2, offset=1))
     T("offset_subquery_no_order", lambda p, t: t >> p.slice_head(2, offset=1) >> p.alias("z") >> p.filter(p.C.a > 0))
@@ -32,6 +39,17 @@ def templates(cfg):
     T("numeric_fns", lambda p, t: t >> p.mutate(r=t.f.round(1), r2=t.f.round(-1), fl=t.f.floor(), ce=t.f.ceil(), ab=t.a.abs(), fd=t.a // t.b, md=t.a % t.b, td=t.a / t.b, pw=t.a**2))
     T("horizontal", lambda p, t: t >> p.mutate(mx=p.max(t.a, t.b, 0), mn=p.min(t.a, t.b), co=p.coalesce(t.a, t.b), cl=t.a.clip(0, 5), isin=t.a.is_in(1, 2, None)))
     T("windows", lambda p, t: t >> p.mutate(rn=p.row_number(arrange=[t.a.nulls_last()]), dr=p.dense_rank(arrange=[t.b]), sh=t.b.shift(-1, 0, arrange=[t.a]), cs=t.b.cum_sum(arrange=[t.a.descending()], partition_by=t.p)))
+    T("nan_filter_not", lambda p, t: t >> p.filter(~t.f.is_nan()))
+    T("nan_and", lambda p, t: t >> p.mutate(y=t.f.is_nan() & (t.a > 1), z=(t.a > 1) | t.f.is_not_nan()))
+    T("nan_arrange", lambda p, t: t >> p.arrange(t.f.is_nan(), t.f.is_not_inf()))
+    T("nan_when", lambda p, t: t >> p.mutate(y=p.when(~t.f.is_nan()).then(1).otherwise(2), z=t.f.is_inf() ^ t.p))
+    T("nan_agg", lambda p, t: t >> p.group_by(t.a) >> p.summarize(x=t.f.is_nan().any(), y=t.f.is_not_inf().all()))
+    T("nan_window", lambda p, t: t >> p.mutate(y=t.a.sum(partition_by=t.f.is_nan()), z=t.f.is_inf().shift(1, arrange=[t.a])))
+    T("temporal_casts", lambda p, t, u: u >> p.mutate(x=u.d.cast(p.Datetime()), y=u.t.cast(p.Date()), s=u.d.cast(p.String()), w=u.t.cast(p.String()), e=u.d.cast(p.Datetime()) == u.t), S_TM)
+    T("temporal_parts", lambda p, t, u: u >> p.mutate(y=u.d.dt.year(), m=u.t.dt.month(), d2=u.t.dt.day(), h=u.t.dt.hour(), mi=u.t.dt.minute(), s=u.t.dt.second(), w=u.d.dt.day_of_week(), j=u.t.dt.day_of_year()), S_TM)
+    T("temporal_cmp", lambda p, t, u: u >> p.filter(u.d >= D0) >> p.mutate(m=p.min(u.d, D0), c=p.coalesce(u.t, T0)) >> p.arrange(u.d.nulls_last(), u.t.descending()), S_TM)
+    T("temporal_agg", lambda p, t, u: u >> p.group_by(u.d) >> p.summarize(lo=u.t.min(), n=p.count()), S_TM)
+    T("temporal_parse", lambda p, t, u: t >> p.mutate(x=t.s.str.to_date(), y=t.s.str.to_datetime()), S_TM)
     T("float_literals", lambda p, t: t >> p.mutate(x=t.f + 1.5, y=t.f * -0.25, z=p.lit(2.0)))
     T("union_ops", lambda p, t: (t >> p.select(t.a, t.b)) >> p.union(t >> p.alias("u") >> p.select(p.C.b, p.C.a), distinct=True) >> p.arrange(p.C.a.nulls_last()))
     def self_join_alias(p, t):
@@ -39,4 +57,7 @@ def templates(cfg):
         return t >> p.left_join(u, t.a == u.b, suffix="_u")
 
     T("self_join_alias", self_join_alias)
+    from . import temporal
+
+    out += temporal.templates_for("C19", cfg)
     return out
